@@ -97,7 +97,8 @@ def _create_stog_program(S, n):
     for r in rects:
         r.location = LOC.TRUNK          # adversarial stale roles from an earlier recognition
     snap = [(r, r.center, r.shape, r.center.x, r.center.y, r.shape.w, r.shape.h) for r in rects]
-    S.patch(Rectangle, "find_location", _stub_find_location(S, E, EA))
+    if S.mode == "sym":
+        S.patch(Rectangle, "find_location", _stub_find_location(S, E, EA))
     L = list(rects)
     out = S.call(geo.create_stog, L)
     S.ensure("create_stog.no_raise", out.ok)
@@ -153,3 +154,82 @@ def create_stog_4(S):
 def create_stog_rejects_empty(S):
     out = S.call(geo.create_stog, [])
     S.ensure("create_stog.rejects_empty_list", out.raised(AssertionError))
+
+
+# ---- bounded leg: the same contract program run concretely on LARGER lists (the symbolic runs stop at 3 / 4 rectangles) ----------
+
+def _random_list(rng, k):
+    """k rectangles on a half-integer grid: a single-trunk orthogon (several branches per side, flush corners), possibly
+    spoilt by one near miss (gap, overhang, overlap with the trunk), possibly with a repeated rectangle, in random order"""
+    h = lambda a, b: rng.randint(2 * a, 2 * b) / 2            # noqa
+    x0, y0 = h(-6, 6), h(-6, 6)
+    W, H = h(2, 8), h(2, 8)
+    x1, y1 = x0 + W, y0 + H
+    rects = [(x0, y0, x1, y1)]
+    while len(rects) < k:
+        side = rng.choice("NSEW")
+        d = h(1, 5) if rng.random() < 0.8 else h(6, 14)            # some branches are larger than the trunk
+        if side in "NS":
+            a = rng.choice([x0, h(0, 2 * int(W)) / 2 + x0]); a = min(a, x1 - 0.5)
+            b = rng.choice([x1, a + 0.5 + rng.randint(0, max(0, int(2 * (x1 - a - 0.5)))) / 2])
+            rects.append((a, y1, b, y1 + d) if side == "N" else (a, y0 - d, b, y0))
+        else:
+            a = rng.choice([y0, h(0, 2 * int(H)) / 2 + y0]); a = min(a, y1 - 0.5)
+            b = rng.choice([y1, a + 0.5 + rng.randint(0, max(0, int(2 * (y1 - a - 0.5)))) / 2])
+            rects.append((x1, a, x1 + d, b) if side == "E" else (x0 - d, a, x0, b))
+    kind = rng.choice(["valid", "valid", "gap", "overhang", "overlap", "repeat", "junk"])
+    if kind != "valid" and k > 1:
+        i = rng.randrange(1, k)
+        a0, b0, a1, b1 = rects[i]
+        if kind == "gap":
+            dx, dy = (0, 0.5) if b0 >= y1 else (0, -0.5) if b1 <= y0 else (0.5, 0) if a0 >= x1 else (-0.5, 0)
+            rects[i] = (a0 + dx, b0 + dy, a1 + dx, b1 + dy)
+        elif kind == "overhang":
+            rects[i] = (a0 - 0.5, b0, a1, b1) if (b0 >= y1 or b1 <= y0) else (a0, b0 - 0.5, a1, b1)
+        elif kind == "overlap":
+            dx, dy = (0, -0.5) if b0 >= y1 else (0, 0.5) if b1 <= y0 else (-0.5, 0) if a0 >= x1 else (0.5, 0)
+            rects[i] = (a0 + dx, b0 + dy, a1 + dx, b1 + dy)
+        elif kind == "repeat":
+            rects[i] = rects[rng.randrange(0, k)]
+        elif kind == "junk":
+            rects[i] = (h(-9, 9), h(-9, 9), 0, 0)
+            rects[i] = (rects[i][0], rects[i][1], rects[i][0] + h(1, 4), rects[i][1] + h(1, 4))
+    rng.shuffle(rects)
+    return kind, rects
+
+
+@contract(P, kind="enum", functions=["frame.geometry.geometry.create_stog", "frame.geometry.geometry.Rectangle.find_location"],
+          scope="bounded: the contract program of create_stog run on concrete lists of 4-8 rectangles (real find_location), 16 chunks",
+          params=[dict(chunk=i) for i in range(8)])
+def create_stog_larger_lists(chunk, replay=None):
+    import os
+    import random
+    from functools import partial
+    tier = os.environ.get("VERIF_TIER", "quick")
+    rng = random.Random(600 + chunk + 100 * int(os.environ.get("VERIF_SEED", "0") or 0))
+    n_cases = 150 if tier != "thorough" else 3000
+    failures, evals, kinds, samples, recognised = [], 0, {}, [], 0
+    for it in range(n_cases):
+        if replay:
+            k, rects, kind = replay["k"], [tuple(r) for r in replay["rects"]], replay.get("kind")
+        else:
+            k = rng.randint(4, 8)
+            kind, rects = _random_list(rng, k)
+        values = {"E": 1e-6, "EA": 1e-9}
+        for i, (a0, b0, a1, b1) in enumerate(rects):
+            values.update({f"r{i}x": (a0 + a1) / 2, f"r{i}y": (b0 + b1) / 2, f"r{i}w": a1 - a0, f"r{i}h": b1 - b0})
+        cs = symx.run_concrete(partial(_create_stog_program, n=k), values)
+        evals += 1
+        kinds[kind] = kinds.get(kind, 0) + 1
+        recognised += "create_stog.first_is_a_valid_trunk" in cs.passed
+        for cl in cs.failed:
+            failures.append(dict(clause=cl, k=k, rects=[list(r) for r in rects], kind=kind))
+        if not samples:
+            samples.append(dict(k=k, kind=kind, rects=[list(r) for r in rects]))
+        if len(failures) >= 4 or replay:
+            break
+    return dict(evaluations=evals, distinct_nontrivial=evals, exhaustive=False, failures=failures[:4],
+                rule="lists of 4-8 rectangles on a half-integer grid: a trunk with branches on all four sides (several per side, flush corners, branches "
+                     "larger than the trunk), spoilt with probability 4/7 by one near miss (gap, overhang, overlap with the trunk), a repeated rectangle or "
+                     f"an unrelated one, shuffled; every clause of the create_stog contract evaluated with the real find_location; kinds: {kinds}; "
+                     f"recognised as orthogons: {recognised}", samples=samples, bound=f"{n_cases} lists per chunk")
